@@ -203,14 +203,14 @@ func TestC19(t *testing.T) {
 		"for every operation ever proposed + unknown hashes, LastNetworkPolicy) is compared with the committed-blocks model read from the " +
 		"block files. non-trivial: at some step >= 2 suffrage changes with one in the permanent store and one in temps and a by-block-height " +
 		"query below the oldest temp; distinct by (genesis size, cache, step list)")
-	r.Floor(int64(r.N(40, 800)))
+	r.Floor(int64(r.N(30, 800)))
 	r.Assume("expected answers come from the block files on the local fs and the proposals built by the harness, never from the database",
 		"SuffrageProofByBlockHeight(h) for h above the last block is 'not found' (both stores document this)",
 		"RemoveBlocks is called for heights the harness believes are temps (and for out-of-range heights, which must be a no-op); after a removal the harness also removes the block files like launch.removePrevBlockFunc",
 		"goleveldb and the local-fs block writer are trusted")
 
 	maxSteps := r.N(22, 36)
-	r.Checks(120, 4000)
+	r.Checks(100, 4000)
 	r.ShrinkTime(60 * time.Second)
 
 	rapid.Check(t, func(rt *rapid.T) {
@@ -371,6 +371,7 @@ func TestC19(t *testing.T) {
 
 		r.Class("reads", int64(reads))
 		r.Class("blocks", int64(len(e.M.Blocks)))
+		r.Class("settle-timeouts", int64(e.SettleTimeouts))
 		r.Case(hist.String(), nontrivial, classes...)
 
 		if nontrivial && r.WantSample() {
